@@ -5,44 +5,65 @@
   value, else the observation is `oracle-inconsistent`), checks that every value the model needs for
   this op is present (`oracle-missing`), and recomputes all scaling / truncation / fee / bookkeeping
   through `Iro.step`.
+
+  Many plans (Model/IroPlans): the driver state is an `MState`; `reset … | <base>` starts on a store
+  that already holds `base` plans; `newra` / `sel k` / `restart` are the multi-plan ops; every other
+  line is a message for the current slot (`MOp.on`).  Each slot has its own curve, hence its own
+  oracle tables.  The observation is prefixed by `<cur> <plan id|-> <LastPlanId> <#plans> ;` and
+  `restart` shows every slot.  An executed exact-spend purchase (`bes … ok`) additionally shows
+  ` nu=<0|1> nl=<0|1>`: the pointwise Newton contract at the purchase (`newtonUpperAtB`,
+  `newtonLowerAtB` with `newtonTolRaw`), which the harness recomputes from the real code's values.
 -/
 import DymVerif.Driver.Common
-import DymVerif.Model.Iro
+import DymVerif.Model.IroPlans
+import DymVerif.Model.IroNewton
 namespace DymVerif.Driver.C13
-open DymVerif DymVerif.Iro DymVerif.Driver
+open DymVerif DymVerif.Iro DymVerif.IroPlans DymVerif.Driver
+
+abbrev ITab := List (Int × Int)
+abbrev TTab := List ((Int × Int) × Option Int)
 
 structure DS where
-  st : State
-  itab : List (Int × Int) := []
-  ttab : List ((Int × Int) × Option Int) := []
-  deriving Inhabited
+  m : MState
+  itabs : List (Nat × ITab) := []      -- per slot
+  ttabs : List (Nat × TTab) := []
 
-def lookupI (tab : List (Int × Int)) (x : Int) : Option Int :=
+instance : Inhabited DS := ⟨{ m := minit default 0 }⟩
+
+def lookupI (tab : ITab) (x : Int) : Option Int :=
   (tab.find? (fun p => p.1 == x)).map (·.2)
-def lookupT (tab : List ((Int × Int) × Option Int)) (s p : Int) : Option (Option Int) :=
+def lookupT (tab : TTab) (s p : Int) : Option (Option Int) :=
   (tab.find? (fun e => e.1.1 == s && e.1.2 == p)).map (·.2)
 
-def oracleI (tab : List (Int × Int)) : Int → Int := fun x => (lookupI tab x).getD 0
-def oracleT (tab : List ((Int × Int) × Option Int)) : Int → Int → Option Int :=
+def itabOf (ds : DS) (k : Nat) : ITab := ((ds.itabs.find? (fun e => e.1 == k)).map (·.2)).getD []
+def ttabOf (ds : DS) (k : Nat) : TTab := ((ds.ttabs.find? (fun e => e.1 == k)).map (·.2)).getD []
+def setItab (ds : DS) (k : Nat) (t : ITab) : DS := { ds with itabs := (k, t) :: ds.itabs.filter (fun e => e.1 != k) }
+def setTtab (ds : DS) (k : Nat) (t : TTab) : DS := { ds with ttabs := (k, t) :: ds.ttabs.filter (fun e => e.1 != k) }
+
+def oracleI (tab : ITab) : Int → Int := fun x => (lookupI tab x).getD 0
+def oracleT (tab : TTab) : Int → Int → Option Int :=
   fun s p => (lookupT tab s p).getD none
 
-/-- parse the oracle tokens; `none` = inconsistent with the table -/
-def addOracle (ds : DS) : List String → Option DS
+def oIs (ds : DS) : Nat → Int → Int := fun k => oracleI (itabOf ds k)
+def oTs (ds : DS) : Nat → Int → Int → Option Int := fun k => oracleT (ttabOf ds k)
+
+/-- parse the oracle tokens into the tables of slot `k`; `none` = inconsistent with the table -/
+def addOracle (k : Nat) (ds : DS) : List String → Option DS
   | [] => some ds
   | tok :: rest =>
     match tok.splitOn ":" with
     | [x, v] =>
       let x := parseInt x; let v := parseInt v
-      match lookupI ds.itab x with
-      | some v' => if v' = v then addOracle ds rest else none
-      | none => addOracle { ds with itab := (x, v) :: ds.itab } rest
+      match lookupI (itabOf ds k) x with
+      | some v' => if v' = v then addOracle k ds rest else none
+      | none => addOracle k (setItab ds k ((x, v) :: itabOf ds k)) rest
     | [s, p, v] =>
       let s := parseInt s; let p := parseInt p
       let v : Option Int := if v = "err" then none else some (parseInt v)
-      match lookupT ds.ttab s p with
-      | some v' => if v' = v then addOracle ds rest else none
-      | none => addOracle { ds with ttab := ((s, p), v) :: ds.ttab } rest
-    | _ => addOracle ds rest
+      match lookupT (ttabOf ds k) s p with
+      | some v' => if v' = v then addOracle k ds rest else none
+      | none => addOracle k (setTtab ds k (((s, p), v) :: ttabOf ds k)) rest
+    | _ => addOracle k ds rest
 
 def b! (s : String) : Bool := s = "1" || s = "true"
 def showB (b : Bool) : String := if b then "1" else "0"
@@ -52,7 +73,20 @@ def showState (st : State) : String :=
     | none => "-"
     | some p => s!"{p.sold} {p.claimed} {p.maxSell} {showB p.enabled} {p.startTime} {showB p.settled} {p.vest.amount} {p.vest.claimed} {p.vest.start} {p.vest.stop}"
   let accts := (List.range st.cfg.n).map (fun a => s!"{st.liq a},{st.iro a},{st.ra a}")
-  s!"{ps} | {st.planLiq} {st.modIro} {st.modRa} | {" ".intercalate accts}"
+  s!"{ps} | {st.planLiq} {st.modIro} {st.modRa} o{st.owner} | {" ".intercalate accts}"
+
+def showPid (m : MState) (k : Nat) : String :=
+  match slotPlanId m k with
+  | some id => toString id
+  | none => "-"
+
+def showM (m : MState) : String :=
+  s!"{m.cur} {showPid m m.cur} {m.tab.lastPlanId} {m.tab.plans.length} ; {showState (m.slot m.cur)}"
+
+/-- every slot (the observation of `restart`) -/
+def showAll (m : MState) : String :=
+  let parts := (List.range m.nslots).map (fun k => s!"[{k} {showPid m k} {showState (m.slot k)}]")
+  s!"{m.cur} {m.tab.lastPlanId} {m.tab.plans.length} ; {" ".intercalate parts}"
 
 /-- the oracle arguments the model reads for this op, from the model state -/
 def needs (st : State) : Op → List Int × List (Int × Int)
@@ -83,10 +117,15 @@ def parseOp : List String → Option Op
   | ["claim", a] => some (.claim (nat! a))
   | ["claimv", a] => some (.claimv (nat! a))
   | ["xfer", a, b, amt] => some (.xfer (nat! a) (nat! b) (parseInt amt))
+  | ["chown", a, b] => some (.chown (nat! a) (nat! b))
   | _ => none
 
 def splitBar (f : List String) : List String × List String :=
   (f.takeWhile (· ≠ "|"), (f.dropWhile (· ≠ "|")).drop 1)
+
+def mop (ds : DS) (o : MOp) (all : Bool := false) : DS × String :=
+  let (m', e) := mstep (oIs ds) (oTs ds) ds.m o
+  ({ ds with m := m' }, s!"{e.str} {if all then showAll m' else showM m'}")
 
 def step (ds : DS) (f : List String) : DS × String :=
   let (main, orc) := splitBar f
@@ -94,38 +133,55 @@ def step (ds : DS) (f : List String) : DS × String :=
   | ["reset", tf, cf, mlp, mvd, mpd, fb, n, ga, ld] =>
     let cfg : Cfg := { takerFee := ⟨parseInt tf⟩, creationFee := parseInt cf, minLiqPart := ⟨parseInt mlp⟩,
                        minVestDur := parseInt mvd, minPlanDur := parseInt mpd, feeBase := b! fb, n := nat! n, genAlloc := parseInt ga, liqDec := nat! ld }
-    ({ st := init cfg }, "ok")
+    let base := match orc with | [b] => nat! b | _ => 0
+    ({ m := minit cfg base }, "ok")
   -- stateless sweep op: Newton contract data for one (L, sold, net spend)
   | ["xs", _, _, _, l, sold, net] =>
-    match addOracle { st := ds.st } orc with     -- own table: the sweep ranges over curves
+    match addOracle 0 { m := ds.m } orc with     -- own table: the sweep ranges over curves
     | none => (ds, "oracle-inconsistent")
     | some ds1 =>
       let L := nat! l; let sold := parseInt sold; let net := parseInt net
-      let I := oracleI ds1.itab; let T := oracleT ds1.ttab
+      let I := oracleI (itabOf ds1 0); let T := oracleT (ttabOf ds1 0)
       let out := match tokensForExactIn T L sold net with
         | some t =>
-          if [sold, sold + t].any (fun x => (lookupI ds1.itab x).isNone) then "oracle-missing"
+          if [sold, sold + t].any (fun x => (lookupI (itabOf ds1 0) x).isNone) then "oracle-missing"
           else s!"{t} {cost I L sold (sold + t)}"
         | none => "err"
       (ds, out)
+  | ["newra"] => mop ds .newra
+  | ["sel", k] => mop ds (.sel (nat! k))
+  | ["restart"] => mop ds .restart true
   | "settle" :: rf :: [] =>
     let ok := match orc with | [x] => b! x | _ => true
-    let (st', e) := Iro.step (oracleI ds.itab) (oracleT ds.ttab) ds.st (.settle (parseInt rf) ok)
-    ({ ds with st := st' }, s!"{e.str} {showState st'}")
+    mop ds (.on (.settle (parseInt rf) ok))
   | _ =>
     match parseOp main with
     | none => (ds, "bad-op")
     | some op =>
-      match addOracle ds orc with
+      match addOracle ds.m.cur ds orc with
       | none => (ds, "oracle-inconsistent")
       | some ds1 =>
-        let (ni, nt) := needs ds1.st op
-        if ni.any (fun x => (lookupI ds1.itab x).isNone) || nt.any (fun a => (lookupT ds1.ttab a.1 a.2).isNone) then
+        let (ni, nt) := needs (ds1.m.slot ds1.m.cur) op
+        if ni.any (fun x => (lookupI (itabOf ds1 ds1.m.cur) x).isNone) || nt.any (fun a => (lookupT (ttabOf ds1 ds1.m.cur) a.1 a.2).isNone) then
           (ds1, "oracle-missing")
         else
-          let (st', e) := Iro.step (oracleI ds1.itab) (oracleT ds1.ttab) ds1.st op
-          ({ ds1 with st := st' }, s!"{e.str} {showState st'}")
+          let pre := ds1.m.slot ds1.m.cur
+          let k := ds1.m.cur
+          let (ds2, out) := mop ds1 (.on op)
+          if !(out.startsWith "ok ") then (ds2, out) else
+          match besPoint pre op with
+          | none => (ds2, out)
+          | some (L, sold, net) =>
+            let I := oIs ds1 k; let T := oTs ds1 k
+            match tokensForExactIn T L sold net with
+            | none => (ds2, out ++ " nu=- nl=-")
+            | some t =>
+              if [sold, sold + t].any (fun x => (lookupI (itabOf ds1 k) x).isNone) then (ds2, "oracle-missing")
+              else
+                let s := (scaleFromBase sold 18).raw
+                let pr := (scaleFromBase net L).raw
+                (ds2, out ++ s!" nu={showB (newtonUpperAtB I T L sold net)} nl={showB (newtonLowerAtB I T (newtonTolRaw pr) s pr)}")
 
-def drv : Drv := { σ := DS, init := { st := init default }, step := step }
+def drv : Drv := { σ := DS, init := default, step := step }
 
 end DymVerif.Driver.C13
